@@ -200,7 +200,8 @@ def walk_plan(low, stage, base):
             # per-partition schema only for partitions that are pandas objects of a collection node
             ps = [] if _is_intermediate(e) else [schema_of(p) for p in parts if isinstance(p, (pd.DataFrame, pd.Series, pd.Index))]
             line = dict(base, kind="node", stage=stage, cls=type(e).__name__, np=int(e.npartitions), known=bool(known), div=div, div_has_null=bool(NULL in div),
-                        parts=pf, decl=decl, pschemas=ps, has_result=False, rschema=decl, asserted=False, is_root=(e is low or e._name == low._name))
+                        parts=pf, decl=decl, pschemas=ps, has_result=False, rschema=decl, asserted=False, is_root=(e is low or e._name == low._name),
+                        meta_rows=0 if _is_intermediate(e) or not hasattr(meta, "__len__") or not isinstance(meta, (pd.DataFrame, pd.Series, pd.Index)) else int(len(meta)))
             lines.append(line)
     try:
         g, outs, nkeys = graph_facts(low)
@@ -473,8 +474,10 @@ def run_for(pid, tier="quick", seed=0, replay_path=None):
         ln["tid"] = i
     chk.evaluations = len(sel)
     keep = {"C06": ("tid", "kind", "prop", "np", "known", "div", "parts", "asserted", "pairs"),
-            "C07": ("tid", "kind", "prop", "decl", "pschemas", "has_result", "rschema", "schemas"),
+            "C07": ("tid", "kind", "prop", "decl", "pschemas", "has_result", "rschema", "schemas", "meta_rows"),
             "C09": ("tid", "kind", "prop", "graph", "outs")}[pid]
+    for ln in sel:
+        ln.setdefault("meta_rows", 0)
     slim = [{k: v for k, v in ln.items() if k in keep} for ln in sel]
     cfg = tlc.cfg(init="Init", next="Next", postcondition="AllConsumed")
     results, rejects, _, _ = tlc.validate("PlanWalkTrace", slim, cfg_text=cfg, chunk=400, parallel=10)
